@@ -22,7 +22,7 @@ use std::collections::BTreeSet;
 
 const ROOT_DEGREES_QUICK: [u32; 13] = [0, 1, 2, 3, 4, 5, 7, 8, 16, 17, 36, 37, 64];
 const ROOT_DEGREES_MORE: [u32; 6] = [100, 127, 128, 255, 256, 1000];
-const BIG_DEGREES: [u32; 2] = [4096, 65537];
+const BIG_DEGREES: [u32; 1] = [4096];
 const EXPS: [i64; 30] = [
     i64::MIN,
     i64::MIN + 1,
@@ -334,12 +334,19 @@ fn check_pow<T: Fixed>(pc: &PowCtx, a: &BigInt, av: T, ei: usize, l: &mut Local)
     }
     let neg_result = a.is_negative() && n % 2 == 1;
     let missed = |l: &mut Local, exact: &BigInt| {
-        // an exact result of exactly MIN that is refused is the narrowing defect also seen by C24 (same key prefix)
-        let kind = if exact == &ty.min { "exact-MIN-rejected" } else { "powi-exact-result-missed" };
+        // key classes: an exact result of exactly MIN that is refused is the narrowing defect also seen by C24
+        // (same key prefix); exp = i64::MIN with a unit base is the exponent-negation overflow
+        let (kind, key) = if exact == &ty.min {
+            ("exact-MIN-rejected", format!("exact-MIN-rejected:{}:checked_powi", T::NAME))
+        } else if e == i64::MIN && a.abs() == ty.one {
+            ("powi:exp=i64::MIN:unit-base", format!("powi:exp=i64::MIN:unit-base:{}", T::NAME))
+        } else {
+            ("powi-exact-result-missed", format!("powi-exact-result-missed:{}:{}", exp_class(e), T::NAME))
+        };
         report(
             l,
             kind,
-            if exact == &ty.min { format!("exact-MIN-rejected:{}:checked_powi", T::NAME) } else { format!("powi-exact-result-missed:{}:{}", exp_class(e), T::NAME) },
+            key,
             format!("{}: the exact result {exact} (raw) is representable but the real code returned {}", head(), show_got(&got)),
             case(),
         );
@@ -572,7 +579,7 @@ pub fn run(ctx: Ctx) -> ! {
         true,
         cov,
         &[
-            "nth_root with a degree near u32::MAX is only run on inputs answered without forming 10^(s(n-1)) (zero; negative value with even degree): on any other input the code materialises a number of ~60·n bits (n = u32::MAX: ~32 GB), which would take the harness down; reported as an observation, not decided here",
+            "nth_root with a degree near u32::MAX is only run on inputs answered without forming 10^(s(n-1)) (zero; negative value with even degree): on any other input the code materialises a number of ~60·n bits (n = u32::MAX: ~32 GB) and the BigInt Newton iteration needs ~n·ln2 steps (degree 65537 did not finish within an hour on one value), which would take the harness down; reported as an observation, not decided here",
             "for |exponent| > 1024 the exact power is enclosed by directed rounding at 120 extra digits; a result inside the enclosure width is counted as inconclusive (informational), never as a violation",
             "0^0 and 0^negative carry no demand (statement silent), except that they must not panic",
             "raw values are transported as u64 limbs via from_digits/to_digits",
